@@ -105,11 +105,14 @@ func H_C14_lookup() {
 	m := mapC14()
 	d := map[string]interface{}{"m": m}
 	var expr string
-	switch vChoose(3) {
+	switch vChoose(5) {
 	case 0:
 		expr = "m.b == 1"
 	case 1:
 		expr = "\"c\" in m"
+	case 3, 4: // membership in an interface-keyed map whose other keys cannot be compared with the literal
+		d = map[string]interface{}{"m": map[interface{}]interface{}{"c": 1, [2]int{1, 2}: 2, 5: 3, true: 4}, "l": []interface{}{map[interface{}]int{"c": 1, [1]string{"c"}: 2}}}
+		expr = []string{"\"c\" in m", "5 in m", "m contains zz", "any l as e { c in e }"}[vChoose(4)]
 	default:
 		expr = "m.zz != 1"
 	}
